@@ -3,8 +3,8 @@
    shape (row-major data) or a layout of any depth; scalars, single objects and records broadcast.  Proved by induction on
    lists / layouts.  The real backends are tied to the lifts by the correspondence over the operation catalogue, every
    coordinate system, flavor and backend pairing (see evidence). *)
-From Coq Require Import List.
-From VP Require Import Layout.
+From Coq Require Import List ZArith Bool.
+From VP Require Import Layout ObjModel ObjNames NbModel NpApi NpChecks.
 
 (* element i of an array result equals the object-backend result for element i; the shape is preserved *)
 Theorem C03_numpy_elementwise : forall (A B : Type) (f : A -> B) (a : narr A),
@@ -25,3 +25,16 @@ Theorem C03_awkward_binary_and_broadcast : forall (A B C : Type) (f : A -> B -> 
      forall p, at_path p (lzip f s t) = match at_path p s, at_path p t with Some a, Some b => Some (f a b) | _, _ => None end) /\
   (forall a, lzip f (Leaf a) t = lmap (f a) t) /\ (forall b, lzip f s (Leaf b) = lmap (fun a => f a b) s).
 Proof. intros. split; [apply lzip_same_structure|]. split; intros; [apply lzip_broadcast_left | apply lzip_broadcast_right]. Qed.
+
+(* The REAL NumPy backend, executed symbolically on object-dtype arrays of variables (T6, gen/NpApi*.v), next to the real object
+   backend on the same program, for every getter, conversion (with every keyword choice), unary / binary method, operator and
+   ufunc, over all 20 coordinate systems x 2 flavors (x second operand, x the mixed pairings NumPy x object, object x NumPy):
+   the element of the NumPy result is the object result — same class (VectorNumpyND ~ VectorObjectND, flavor included), same
+   coordinate systems, the same field expressions over the generated compute definitions, hence the same value for every operand
+   value — and what the object backend rejects the NumPy backend rejects.  With the elementwise lift above: C03 for NumPy arrays
+   of any shape. *)
+Theorem C03_numpy_backend_is_the_object_backend_elementwise : forallb np_agree np_tab = true.
+Proof. vm_cast_no_check (eq_refl true). Qed.
+
+Example C03_numpy_table_nonvacuous : Nat.ltb 20000 (count np_count_returning np_tab) = true.
+Proof. vm_cast_no_check (eq_refl true). Qed.
